@@ -10,18 +10,19 @@ S == INSTANCE LangStatic
 Lit(s) == [k |-> "lit", v |-> s]
 V(x) == [k |-> "var", n |-> x, site |-> 0]
 Lits == {<<97>>, <<9>>, <<34, 113, 34>>, <<97, 92, 98>>, <<233, 10>>, <<32>>}
-Vars == {"x", "s", "b", "z"}
+\* identifier shapes: a digit inside, an underscore inside, a leading underscore, a digit between letters
+Vars == {"x1", "s_t", "_b", "z9z"}
 Shapes == {<<V(x)>> : x \in Vars}
      \cup {<<Lit(l), V(x)>> : l \in Lits, x \in Vars}
      \cup {<<V(x), Lit(l)>> : l \in Lits, x \in Vars}
      \cup {<<Lit(l), V(x), Lit(r)>> : l \in Lits, r \in {<<97>>, <<9>>}, x \in Vars}
      \cup {<<V(x), V(y)>> : x \in Vars, y \in Vars}
-     \cup {<<V(x), Lit(l), V(y)>> : x \in {"x", "s"}, y \in {"b", "s"}, l \in Lits}
+     \cup {<<V(x), Lit(l), V(y)>> : x \in {"x1", "s_t"}, y \in {"_b", "s_t"}, l \in Lits}
 Make(id, x, e) == [k |-> "make", id |-> id, d |-> 10 * id, n |-> x, site |-> 0, e |-> e]
-Prog(segs) == <<Make(1, "x", [k |-> "num", v |-> 10]),
-                Make(2, "s", [k |-> "str", segs |-> <<Lit(<<115, 116>>)>>]),
-                Make(3, "b", [k |-> "bool", v |-> TRUE]),
-                Make(4, "z", [k |-> "null"]),
+Prog(segs) == <<Make(1, "x1", [k |-> "num", v |-> 10]),
+                Make(2, "s_t", [k |-> "str", segs |-> <<Lit(<<115, 116>>)>>]),
+                Make(3, "_b", [k |-> "bool", v |-> TRUE]),
+                Make(4, "z9z", [k |-> "null"]),
                 [k |-> "expr", id |-> 5, e |-> [k |-> "call", f |-> "shout", site |-> 0, as |-> <<[k |-> "str", segs |-> segs]>>]]>>
 VARIABLES prog, m, fuel
 vars == <<prog, m, fuel>>
